@@ -7,6 +7,7 @@ mod fsop;
 mod ffi;
 mod consts_more;
 mod c01;
+mod c06;
 mod c03;
 mod c04;
 mod c08;
@@ -69,6 +70,7 @@ fn main() {
             match prop.as_str() {
                 "C01" => c01::run(&mut ctx),
                 "C03" => c03::run(&mut ctx),
+                "C06" => c06::run(&mut ctx),
                 "C04" => c04::run(&mut ctx),
                 "C08" => c08::run(&mut ctx),
                 "C09" => c09::run(&mut ctx),
